@@ -39,7 +39,7 @@ class TableProcessor(BlockProcessor):
     """ Process Tables. """
 
     RE_CODE_PIPES = re.compile(r'(?:(\\\\)|(\\`+)|(`+)|(\\\|)|(\|))')
-    RE_END_BORDER = re.compile(r'(?<!\\)(?:\\\\)*\|$')
+    RE_END_BORDER = re.compile(r'(?<!\\)((?:\\\\)*)\|$')
 
     def __init__(self, parser: blockparser.BlockParser, config: dict[str, Any]):
         self.border: bool | int = False
@@ -149,7 +149,7 @@ class TableProcessor(BlockProcessor):
         if self.border:
             if row.startswith('|'):
                 row = row[1:]
-            row = self.RE_END_BORDER.sub('', row)
+            row = self.RE_END_BORDER.sub(r'\1', row)
         return self._split(row)
 
     def _split(self, row: str) -> list[str]:
